@@ -4,7 +4,7 @@ Engine: SEQ without merging (= every registration history up to a length bound,
 order is the point) x ENUM over requests (DESIGN.md C02).
 
 Alphabet of registrations (symbols, see `alphabets()`):
-  R  add_route(t, resource implementing subset S of {GET, POST, OPTIONS, LOCK, on_websocket})
+  R  add_route(t, resource implementing subset S of {GET, POST, OPTIONS, VERSION-CONTROL, on_websocket})
      t in {/a, /a/{id}, /{x}}
   S  add_route(t, res, suffix='x') with res of kind P (plain only), X (suffixed only),
      PX (plain {GET,POST} + suffixed {GET}), N (no responders); kinds P and N are
@@ -17,7 +17,7 @@ x  sink_before_static_route in {True, False}  x  stack in {wsgi, asgi}
 x  mode 'final' (all registrations, then requests: the router compiles once) and
    mode 'incr' (requests after every registration: late add_* must invalidate
    whatever was compiled/cached)
-Requests: method in {GET, POST, OPTIONS, LOCK, HEAD, WEBSOCKET (meta), BOGUS} x 13 paths
+Requests: method in {GET, POST, OPTIONS, VERSION-CONTROL, HEAD, WEBSOCKET (meta), BOGUS} x 13 paths
 (each prefix, its boundary /a vs /ab vs /a/, nested, digits, a miss).
 
 Bound: histories of length <= 3 (quick) / <= 4 (thorough); the alphabet shrinks
@@ -47,8 +47,9 @@ from mc.core import vloop
 import falcon
 import falcon.asgi
 
-METHODS5 = ('GET', 'POST', 'OPTIONS', 'LOCK', 'WEBSOCKET')
-REQ_METHODS = ('GET', 'OPTIONS', 'POST', 'LOCK', 'HEAD', 'WEBSOCKET', 'BOGUS')
+# the WebDAV representative is the one method whose name is not an identifier (responder: 'on_version-control')
+METHODS5 = ('GET', 'POST', 'OPTIONS', 'VERSION-CONTROL', 'WEBSOCKET')
+REQ_METHODS = ('GET', 'OPTIONS', 'POST', 'VERSION-CONTROL', 'HEAD', 'WEBSOCKET', 'BOGUS')
 PROBE_METHODS = ('GET', 'OPTIONS')          # sent between registrations in 'incr' mode
 # what the framework knows as HTTP/WebDAV methods (RFC 7231/5789/2518/4918), written out here
 KNOWN_METHODS = frozenset(
@@ -495,7 +496,7 @@ def alphabets():
     full += [('F', 'oth', 1, True), ('F', 'lit', 0, True), ('B', 'sink'), ('B', 'lit'),
              ('F', 'oth', 0, True, 'slash'), ('F', 'lit', 1, False, 'slash')]
 
-    mid = [('R', 'lit', ('GET',)), ('R', 'lit', ('GET', 'POST')), ('R', 'lit', ('LOCK', 'WEBSOCKET')), ('R', 'lit', ()),
+    mid = [('R', 'lit', ('GET',)), ('R', 'lit', ('GET', 'POST')), ('R', 'lit', ('VERSION-CONTROL', 'WEBSOCKET')), ('R', 'lit', ()),
            ('R', 'litf', ('GET',)), ('R', 'litf', ('GET', 'POST')), ('R', 'litf', ('GET', 'OPTIONS')),
            ('R', 'f', ('GET', 'OPTIONS')), ('R', 'f', ()), ('R', 'f', ('POST',)),
            ('S', 'lit', 'X', True), ('S', 'lit', 'PX', True), ('S', 'lit', 'P', True),
@@ -506,7 +507,7 @@ def alphabets():
     mid += [('F', 'lit', 0, False), ('F', 'lit', 1, False), ('F', 'oth', 0, False), ('F', 'oth', 1, False),
             ('F', 'oth', 1, True), ('B', 'sink'), ('F', 'oth', 0, True, 'slash')]
 
-    core = [('R', 'lit', ('GET',)), ('R', 'lit', ('LOCK', 'WEBSOCKET')), ('R', 'litf', ('GET', 'POST')),
+    core = [('R', 'lit', ('GET',)), ('R', 'lit', ('VERSION-CONTROL', 'WEBSOCKET')), ('R', 'litf', ('GET', 'POST')),
             ('R', 'f', ('GET', 'OPTIONS')),
             ('S', 'lit', 'PX', True), ('S', 'lit', 'P', True),
             ('K', 'root'), ('K', 'lit'), ('K', 'rest'),
